@@ -354,10 +354,12 @@ def main():
     outdir = os.path.join(WORK, "%s-%s" % (prop, tier))
     shutil.rmtree(outdir, ignore_errors=True)
     os.makedirs(outdir, exist_ok=True)
-    os.makedirs(os.path.join(VERIF, "evidence"), exist_ok=True)
-    os.makedirs(os.path.join(VERIF, "replays"), exist_ok=True)
+    # runs against a scratch copy of the library (VERIF_REPO: seeded-defect runs) must not overwrite the evidence of /repo
+    OUT = WORK if os.environ.get("VERIF_REPO") else VERIF
+    os.makedirs(os.path.join(OUT, "evidence"), exist_ok=True)
+    os.makedirs(os.path.join(OUT, "replays"), exist_ok=True)
     os.makedirs(BUILD, exist_ok=True)
-    evfile = os.path.join(VERIF, "evidence", prop + ".json")
+    evfile = os.path.join(OUT, "evidence", prop + ".json")
 
     parts = parts_for(prop, tier)
     need_race = any(p.get("race") for p in parts)
@@ -490,7 +492,7 @@ def main():
     replay_paths = []
     for v in new_viol:
         h = hashlib.sha1(v["key"].encode()).hexdigest()[:12]
-        rp = os.path.join(VERIF, "replays", "%s-%s.json" % (prop, h))
+        rp = os.path.join(OUT, "replays", "%s-%s.json" % (prop, h))
         json.dump(dict(property=prop, tier=tier, seed=seed, key=v["key"], what=v["what"], count=v.get("count", 1),
                        part=v.get("part"), detail=v.get("detail"),
                        how_to_replay="VERIF_SEED=%d ./run.sh %s %s   (deterministic: the same case list is regenerated from the seed; or ./run.sh --replay %s)" % (seed, prop, tier, rp)),
